@@ -27,6 +27,10 @@ RULE = ("suite A: every history of exactly L events over {post p v (p registered
         "histories containing a takeover run (quick: two out of three, thorough: every second one) on a device built by the real pyatv.connect() with the takeover "
         "performed through the Core that connect() handed to that protocol (core.takeover), or on a hand-assembled "
         "FacadeAppleTV with facade.takeover(protocol, ...); histories without takeover alternate between the two builds; "
+        "suite M (first chunk, with the corpus): 2-3 device objects alive in one process, built like a single one, events "
+        "interleaved, each device compared with the single-device model on its own events (Lean: devices_independent); "
+        "chunk-wise evaluation that stops generating once a chunk produced an oracle failure; pyatv loggers at DEBUG "
+        "(runner default) except every second chunk of suites A/B at WARNING; "
         "suite F: updaters whose own `active` flag turns off/on by itself (independently of start/stop), exhaustive "
         "histories for one and two protocols incl. takeover; suite D: for every Playing domain (each constructor field varied alone over three values, once without and once "
         "with an explicit hash shared by the three states; hash alone; colliding calculated hashes; unset/empty; mixed) "
@@ -356,48 +360,55 @@ async def _build_via_connect(env, w, reg_p, reg_k):
         pyatv.PROTOCOLS = real
 
 
-async def _run_case(env, case):
-    mode, reg_p, reg_k, domain, toks, raises = case[:6]
-    build = case[6] if len(case) > 6 else "direct"
-    w = _World(env, domain, raises)
-    loop = asyncio.get_running_loop()
+class _Device:
+    """One device object alive in the process: its world, facade parts, listener and script."""
 
-    def _on_loop_error(_loop, context):
-        # what asyncio does with an exception escaping a call_soon callback: hand it to the
-        # loop's exception handler.  Our own listener faults are expected; anything else is recorded.
-        exc = context.get("exception")
-        if not isinstance(exc, ListenerFault):
-            w.loop_errors.append(type(exc).__name__ if exc is not None else str(context.get("message"))[:60])
+    def __init__(self, env, case):
+        self.env = env
+        self.mode, self.reg_p, self.reg_k, self.domain, self.toks, raises = case[:6]
+        self.build = case[6] if len(case) > 6 and case[6] else "direct"
+        self.w = _World(env, self.domain, raises)
+        self.next = 0
 
-    loop.set_exception_handler(_on_loop_error)
-    if build == "connect":
-        atv = await _build_via_connect(env, w, reg_p, reg_k)
-    else:
-        atv = await _build_direct(env, w, reg_p, reg_k)
-    listener = _Listener(w)
-    push, audio, kbd = atv.push_updater, atv.audio, atv.keyboard
-    push.listener = listener
-    audio.listener = listener
-    kbd.listener = listener
-    us = env.UpdatedState
-    for idx, tok in enumerate(toks):
+    async def setup(self):
+        env, w = self.env, self.w
+        if self.build == "connect":
+            self.atv = await _build_via_connect(env, w, self.reg_p, self.reg_k)
+        else:
+            self.atv = await _build_direct(env, w, self.reg_p, self.reg_k)
+        self.listener = _Listener(w)
+        self.push, self.audio, self.kbd = self.atv.push_updater, self.atv.audio, self.atv.keyboard
+        self.push.listener = self.listener
+        self.audio.listener = self.listener
+        self.kbd.listener = self.listener
+
+    @property
+    def done(self):
+        return self.next >= len(self.toks)
+
+    async def step(self):
+        """Execute this device's next event."""
+        env, w, atv = self.env, self.w, self.atv
+        idx, tok = self.next, self.toks[self.next]
+        self.next += 1
         w.idx = idx
+        us = env.UpdatedState
         f = tok.split(".")
         try:
             if f[0] == "p":
-                obj = env.playing(domain, int(f[2]))      # a fresh object for every post
+                obj = env.playing(self.domain, int(f[2]))      # a fresh object for every post
                 w.keep.append(obj)
                 w.posted[id(obj)] = int(f[2])
                 w.updaters[int(f[1])].post_update(obj)
             elif f[0] == "s":
-                push.start()
+                self.push.start()
             elif f[0] == "t":
-                push.stop()
+                self.push.stop()
             elif f[0] == "k":
                 a, b = MASKS[int(f[2])]
                 ifs = ([env.interface.PushUpdater] if a else []) + ([env.interface.Keyboard] if b else [])
                 try:
-                    if build == "connect":      # through the Core that connect() handed to protocol p
+                    if self.build == "connect":      # through the Core that connect() handed to protocol p
                         w.handles.append(w.cores[int(f[1])].takeover(*ifs))
                     else:
                         w.handles.append(atv.takeover(env.priorities[int(f[1])], *ifs))
@@ -418,29 +429,69 @@ async def _run_case(env, case):
                 await _settle()
             else:
                 raise ValueError(tok)
-            if mode == "D":
+            if self.mode == "D":
                 await _settle()
         except Exception as exc:  # changed code may raise: an observation, never a harness crash
             w.errors.append((idx, type(exc).__name__))
-    try:
-        main_p = env.priorities.index(push.main_protocol) if push.main_protocol is not None else None
-        main_k = env.priorities.index(kbd.main_protocol) if kbd.main_protocol is not None else None
-    except Exception as exc:
-        main_p = main_k = "exc:" + type(exc).__name__
-    try:
-        active = 1 if push.active else 0
-    except env.exceptions.NotSupportedError:
-        active = None
-    except Exception as exc:
-        active = "exc:" + type(exc).__name__
-    cur = (env.index_of(env.volumes, getattr(audio, "_volume", None)) if hasattr(audio, "_volume") else None,
-           env.devices_val(getattr(audio, "_output_devices")) if hasattr(audio, "_output_devices") else None,
-           env.index_of(env.focus, getattr(kbd, "_focus_state", None)) if hasattr(kbd, "_focus_state") else None)
-    w.idx = len(toks)
+        if self.done:
+            w.idx = len(self.toks)      # anything arriving from now on is recorded past the end
+
+    def result(self):
+        env, w, push, audio, kbd = self.env, self.w, self.push, self.audio, self.kbd
+        try:
+            main_p = env.priorities.index(push.main_protocol) if push.main_protocol is not None else None
+            main_k = env.priorities.index(kbd.main_protocol) if kbd.main_protocol is not None else None
+        except Exception as exc:
+            main_p = main_k = "exc:" + type(exc).__name__
+        try:
+            active = 1 if push.active else 0
+        except env.exceptions.NotSupportedError:
+            active = None
+        except Exception as exc:
+            active = "exc:" + type(exc).__name__
+        cur = (env.index_of(env.volumes, getattr(audio, "_volume", None)) if hasattr(audio, "_volume") else None,
+               env.devices_val(getattr(audio, "_output_devices")) if hasattr(audio, "_output_devices") else None,
+               env.index_of(env.focus, getattr(kbd, "_focus_state", None)) if hasattr(kbd, "_focus_state") else None)
+        return {"log": w.log, "refused": w.refused, "errors": w.errors + [(-2, "loop:" + e) for e in w.loop_errors],
+                "main_p": main_p, "main_k": main_k, "cur": cur, "active": active, "faults": w.faults}
+
+
+async def _run_group(env, members, schedule):
+    """Several device objects alive in one process, built the way a single one is; their events
+    interleaved according to `schedule` (device indices; whatever is left over runs afterwards,
+    device by device).  Returns one result per member."""
+    devs = [_Device(env, c) for c in members]
+    loop = asyncio.get_running_loop()
+
+    def _on_loop_error(_loop, context):
+        # what asyncio does with an exception escaping a call_soon callback: hand it to the
+        # loop's exception handler.  Our own listener faults are expected; anything else is recorded.
+        exc = context.get("exception")
+        if not isinstance(exc, ListenerFault):
+            for d in devs:
+                d.w.loop_errors.append(type(exc).__name__ if exc is not None else str(context.get("message"))[:60])
+
+    loop.set_exception_handler(_on_loop_error)
+    for d in devs:
+        await d.setup()
+    for k in list(schedule) + [i for i, d in enumerate(devs) for _ in d.toks]:
+        if 0 <= k < len(devs) and not devs[k].done:
+            await devs[k].step()
+    results = [d.result() for d in devs]     # state observed before the final drain
+    for d in devs:
+        d.w.idx = len(d.toks)
     await _settle()   # U-mode histories end with `d`; anything arriving now is recorded past the end
-    return {"log": w.log, "refused": w.refused, "errors": w.errors + [(-2, "loop:" + e) for e in w.loop_errors],
-            "main_p": main_p, "main_k": main_k, "cur": cur, "active": active, "faults": w.faults,
-            "keep": (atv, listener)}
+    return results
+
+
+async def _run_case(env, case):
+    """A single device, or (case[7] = (members, schedule, me)) one member of a multi-device group."""
+    if len(case) > 7 and case[7]:
+        members, schedule, me = case[7]
+        members = list(members)
+        members[me] = case[:7]
+        return (await _run_group(env, members, schedule))[me]
+    return (await _run_group(env, [case], []))[0]
 
 
 def execute(env, cases):
@@ -451,7 +502,6 @@ def execute(env, cases):
         for case in cases:
             try:
                 r = await _run_case(env, case)
-                r.pop("keep", None)
             except Exception as exc:
                 r = {"log": [], "refused": [], "errors": [(-1, type(exc).__name__ + ":" + str(exc)[:80])],
                      "main_p": None, "main_k": None, "cur": (None, None, None), "active": None, "faults": 0}
@@ -635,7 +685,7 @@ def suite_b(ctx, env):
             yield ("D", [0], [0, 4], dom, list(t), "")
     alpha = [f"f.{p}.{v}" for p in (0, 4) for v in range(3)] + ["k.0.2", "k.4.2", "r"]
     for reg_k in ([0, 4], [0]):
-        for t in itertools.product(alpha, repeat=length):
+        for t in itertools.product(alpha, repeat=length if reg_k == [0, 4] else length - 1):
             yield ("D", [0], reg_k, dom, list(t), "")
 
 
@@ -689,6 +739,41 @@ def suite_f(ctx, env):
                 continue            # covered by suite A
             n += 1
             yield ("D", reg, [], names[n % len(names)], list(t), "")
+
+
+def group_cases(members, schedule):
+    """One case per member of a multi-device group (each is checked against the single-device
+    model run on that device's own events)."""
+    members = [tuple(m[:7]) if len(m) > 6 else tuple(m) + ("direct",) for m in members]
+    return [m + ((members, list(schedule), i),) for i, m in enumerate(members)]
+
+
+def suite_m(ctx, env, rng):
+    """Several device objects alive in one process (2, sometimes 3), each built the way a single
+    one is (both builds), their events interleaved; every event followed by a drain."""
+    fixed = [
+        [("D", [0], [0], "title", "v.0.1 o.0.1 f.0.1 s p.0.1 v.0.2 p.0.2".split(), ""),
+         ("D", [0], [0], "title", "s p.0.2 v.0.2 f.0.2 o.0.2 v.0.1 p.0.1".split(), "")],
+        [("D", [0, 4], [0], "album", "s k.4.1 p.4.1 p.0.1 r p.0.2 t".split(), "", "connect"),
+         ("D", [0, 4], [0], "album", "s p.0.1 p.4.1 k.4.3 f.4.1 f.0.2 p.4.2".split(), "", "connect"),
+         ("D", [2], [], "hash", "p.2.1 s p.2.1 p.2.2 v.2.1".split(), "")],
+    ]
+    for members in fixed:
+        n = sum(len(m[4]) for m in members)
+        for schedule in ([i % len(members) for i in range(n * len(members))],
+                         [i for i, m in enumerate(members) for _ in m[4]],
+                         [i for i, m in reversed(list(enumerate(members))) for _ in m[4]]):
+            yield from group_cases(members, schedule)
+    for _ in range(ctx.scale(150, 2000)):
+        k = 2 if rng.random() < 0.7 else 3
+        members = []
+        for _j in range(k):
+            c = random_case(rng, ctx.scale(8, 12), env)
+            toks = [x for x in c[4] if x != "d"]
+            members.append(("D", c[1], c[2], c[3], toks, c[5], rng.choice(["connect", "direct"])))
+        schedule = [i for i, m in enumerate(members) for _ in m[4]]
+        rng.shuffle(schedule)
+        yield from group_cases(members, schedule)
 
 
 def random_raises(rng):
@@ -788,15 +873,25 @@ def compare(ctx, case, res, ans):
                      where="outputs refused mainP mainK vol outs foc active")
 
 
-def case_json(case):
+def case_json(case, _nested=False):
     mode, reg_p, reg_k, domain, toks, raises = case[:6]
-    return {"mode": mode, "regP": list(reg_p), "regK": list(reg_k), "domain": domain, "events": " ".join(toks),
-            "listener_raises_on_call": raises, "build": case[6] if len(case) > 6 else "direct"}
+    j = {"mode": mode, "regP": list(reg_p), "regK": list(reg_k), "domain": domain, "events": " ".join(toks),
+         "listener_raises_on_call": raises, "build": case[6] if len(case) > 6 else "direct"}
+    if len(case) > 7 and case[7] and not _nested:
+        members, schedule, me = case[7]
+        j["devices_alive"] = [case_json(m, True) for m in members]   # all device objects of the process
+        j["schedule"] = list(schedule)                                 # whose event runs next
+        j["me"] = me                                                   # the device this case is about
+    return j
 
 
 def case_from_json(j):
-    return (j["mode"], list(j["regP"]), list(j["regK"]), j.get("domain", j.get("field", "title")), j["events"].split(),
+    base = (j["mode"], list(j["regP"]), list(j["regK"]), j.get("domain", j.get("field", "title")), j["events"].split(),
             j.get("listener_raises_on_call", ""), j.get("build", "direct"))
+    if j.get("devices_alive"):
+        members = [case_from_json(m) for m in j["devices_alive"]]
+        return base + ((members, list(j.get("schedule", [])), int(j.get("me", 0))),)
+    return base
 
 
 def with_builds(cases, both):
@@ -818,9 +913,23 @@ def with_builds(cases, both):
     return out
 
 
-def evaluate(ctx, env, cases, suite):
+def evaluate(ctx, env, cases, suite, quiet_log=False):
+    """Run one chunk on the real code and on the model, compare, apply the oracle.  `quiet_log`:
+    run this chunk with the pyatv loggers at WARNING instead of the DEBUG level the runner set
+    (logging is a run-time parameter: both settings are exercised; VERIF_LOG=off disables all)."""
+    import logging
+
     cases = with_builds(cases, ctx.thorough)
-    results = execute(env, cases)
+    logger = logging.getLogger("pyatv")
+    level = logger.level
+    if quiet_log:
+        logger.setLevel(logging.WARNING)
+    try:
+        results = execute(env, cases)
+    finally:
+        logger.setLevel(level)
+    ctx.note("log_level:" + ("off" if logging.root.manager.disable >= logging.CRITICAL
+                             else logging.getLevelName(logging.WARNING if quiet_log else logger.getEffectiveLevel())), len(cases))
     answers = ctx.lean([line_for(c) for c in cases])
     for case, res, ans in zip(cases, results, answers):
         problems, delivered, suppressed = oracle(case, res)
@@ -831,6 +940,8 @@ def evaluate(ctx, env, cases, suite):
         ctx.note("delivered:%s" % ("0" if delivered == 0 else "1-2" if delivered < 3 else "3+"))
         ctx.note("domain:" + case[3])
         ctx.note("build:" + case[6])
+        if len(case) > 7 and case[7]:
+            ctx.note("devices_alive:%d" % len(case[7][0]))
         if case[5]:
             ctx.note("listener_faults_scripted")
             ctx.note("listener_faults_raised", res.get("faults", 0))
@@ -865,6 +976,9 @@ def run(ctx, only=None):
         return
     # fixed witnesses first (they are the Lean examples / the undrained-stop theorem)
     evaluate(ctx, env, WITNESSES, "witness")
+    if ctx.failures:
+        ctx.notes["stopped_early"] = "a fixed witness failed; no further cases generated"
+        return
     res = execute(env, [UNDRAINED])[0]
     after_stop = [list(e) for e in res["log"] if e[0] >= 2]
     ctx.notes["undrained_post_then_stop"] = (
@@ -878,44 +992,75 @@ def run(ctx, only=None):
         "updater produced before' (see assumptions), not counted as a violation" % [list(e) for e in res["log"]])
     ctx.notes["playing_domains"] = "%d domains: %s; skipped: %s" % (
         len(env.domain_names), " ".join(env.domain_names), " ".join(env.domains_skipped) or "none")
-    evaluate(ctx, env, list(suite_d(ctx, env)), "D")
-    evaluate(ctx, env, list(suite_e(ctx, env)), "E")
-    for batch in chunks(suite_f(ctx, env), 20000):
-        evaluate(ctx, env, batch, "F")
-    for batch in chunks(suite_a(ctx, env), 20000):
-        evaluate(ctx, env, batch, "A")
-    for batch in chunks(suite_b(ctx, env), 20000):
-        evaluate(ctx, env, batch, "B")
-    ctx.exhaustive = False      # suites A/B/D/E are exhaustive for their bounds, suite C is sampled
+    ctx.exhaustive = False      # suites A/B/D/E/F are exhaustive for their bounds, suites C/M are sampled
     rng = ctx.rng.fork("suite-c")
-    n = ctx.scale(8000, 60000)
+    n = ctx.scale(6000, 60000)
     maxlen = ctx.scale(10, 16)
-    for batch in chunks((random_case(rng, maxlen, env) for _ in range(n)), 20000):
-        evaluate(ctx, env, batch, "C")
+    _drive(ctx, env, [
+        ("M", itertools.chain(corpus_cases(), suite_m(ctx, env, ctx.rng.fork("suite-m"))), 400),
+        ("D", suite_d(ctx, env), 2000),
+        ("E", suite_e(ctx, env), 2000),
+        ("F", suite_f(ctx, env), 15000),
+        ("A", suite_a(ctx, env), 15000),
+        ("B", suite_b(ctx, env), 15000),
+        ("C", (random_case(rng, maxlen, env) for _ in range(n)), 15000),
+    ], ctx.scale(300, 1800))
+
+
+def corpus_cases():
+    """corpus/C10/*.json: minimised past failures (case JSON as written into replay files)."""
+    import glob
+    import json
+    import os
+
+    root = os.path.join(os.path.dirname(os.path.dirname(os.path.abspath(__file__))), "corpus", "C10")
+    for path in sorted(glob.glob(os.path.join(root, "*.json"))):
+        try:
+            j = json.load(open(path))
+            yield case_from_json(j.get("failure", {}).get("case") or j.get("case") or j)
+        except Exception:
+            continue
+
+
+def _drive(ctx, env, stages, budget_s):
+    """Chunk-wise: run a chunk on the real code, compare with the model, apply the oracle; stop
+    generating as soon as a chunk produced an oracle failure (a broken tree gets its
+    verdict in about the normal wall time even when it makes every further case slower), or when
+    the wall-time budget is exhausted (noted in the evidence, never a verdict)."""
+    import time
+
+    t0 = time.time()
+    for name, gen, size in stages:
+        for k, batch in enumerate(chunks(gen, size)):
+            evaluate(ctx, env, batch, name, quiet_log=(name in ("A", "B") and k % 2 == 1))
+            if ctx.failures:       # (a mere model/implementation disagreement: keep looking for a failing input)
+                ctx.notes["stopped_early"] = ("suite %s chunk %d produced a failure; no further cases generated "
+                                              "(%d evaluated)" % (name, k, ctx.evaluations))
+                return False
+            if time.time() - t0 > budget_s:
+                ctx.notes["budget_exhausted"] = "stopped after suite %s chunk %d: %d s wall time" % (name, k, budget_s)
+                return False
+    return True
 
 
 def widen(ctx):
-    """Used when a proof or the correspondence broke without a failing input: suites A (quick bounds),
-    B (thorough bounds) and a large random suite C."""
+    """Used when a proof or the correspondence broke without a failing input: multi-device groups,
+    suites D/E, F and A (quick bounds), B (thorough bounds) and a large random suite C."""
     env = _Env()
-    evaluate(ctx, env, WITNESSES, "witness")
     ctx.widened = False
     a_cases = list(suite_a(ctx, env))
-    ctx.widened = True
-    evaluate(ctx, env, list(suite_d(ctx, env)), "D")
-    evaluate(ctx, env, list(suite_e(ctx, env)), "E")
-    ctx.widened = False
     f_cases = list(suite_f(ctx, env))
     ctx.widened = True
-    for batch in chunks(f_cases, 20000):
-        evaluate(ctx, env, batch, "F")
-    for batch in chunks(a_cases, 20000):
-        evaluate(ctx, env, batch, "A")
-    for batch in chunks(suite_b(ctx, env), 20000):
-        evaluate(ctx, env, batch, "B")
     rng = ctx.rng.fork("suite-c-widened")
-    for batch in chunks((random_case(rng, 16, env) for _ in range(40000)), 20000):
-        evaluate(ctx, env, batch, "C")
+    _drive(ctx, env, [
+        ("M", itertools.chain(WITNESSES, corpus_cases(), suite_m(ctx, env, ctx.rng.fork("suite-m-widened"))), 400),
+        ("D", suite_d(ctx, env), 2000),
+        ("E", suite_e(ctx, env), 2000),
+        ("F", f_cases, 15000),
+        ("A", a_cases, 15000),
+        ("B", suite_b(ctx, env), 15000),
+        ("C", (random_case(rng, 16, env) for _ in range(40000)), 15000),
+    ], 1800)
 
 
 def replay(ctx, failure):
